@@ -91,7 +91,7 @@ def gen_scenario(rng, cp=None):
         cfg["t2"]["ranking"] = {"alpha_sim": 0.3, "beta_recency": 1.0, "gamma_importance": 0.0}
         cfg["t2"]["exact_recent_days"] = 30
         cfg["t2"].pop("tiers", None)
-    if rng.random() < 0.15:
+    if cp == "cluster-tie" or rng.random() < 0.15:
         # cluster-tie class: old memories without an explicit cluster id and with identical texts (equal scores), so that the
         # cluster tier has to break ties at its top-m boundary
         base_txt = [" ".join(rng.sample(["hello", "world", "moon", "river", "cat", "tree"], 2)) for _ in range(2)]
@@ -118,7 +118,7 @@ def gen_scenario(rng, cp=None):
         cfg["t1"]["cache"] = {"enabled": True, "ttl_s": rng.choice([0, 0, 300])}
         cfg["t2"]["cache"] = {"enabled": True, "ttl_s": rng.choice([0, 0, 300])}
         cfg["t4"]["cache"] = {"enabled": True, "namespaces": ["t2:semantic"], "ttl_sec": rng.choice([0, 600])}
-    if cp is not None or rng.random() < 0.15:
+    if cp in ("wide", "tiny") or rng.random() < 0.15:
         # cache-pressure class: a T1 result cache of 16 entries, eight different questions over two or three graphs (more keys
         # than entries), each asked twice - which entries survive decides the hit counters of the second round
         world = gen_world(rng, ngraphs=(2, 3), neps=(0, 6))
@@ -264,7 +264,8 @@ def _chunk(args):
     bootstrap.init()
     rng = random.Random(f"C01/{seed}/{i}")
     sess = Session.worker(PID, tier, seed)
-    forced = {0: "wide", 1: "tiny"}.get(i)  # both flavours of the cache-pressure class are in every run
+    # both flavours of the cache-pressure class and several cluster-tie scenarios are in every run
+    forced = {0: "wide", 1: "tiny", 2: "cluster-tie", 3: "cluster-tie", 4: "cluster-tie", 5: "cluster-tie"}.get(i)
     for j_ in range(n):
         try:
             check_scenario(gen_scenario(rng, cp=(forced if j_ == 0 else None)), sess, rng, tier)
